@@ -3,6 +3,8 @@
 -/
 import TinyHttpModel.WireSpec
 import TinyHttpModel.Lemmas.Loop
+import TinyHttpModel.Lemmas.PipelineStatuses
+import TinyHttpModel.Props.C09
 
 namespace TH.Props.C18
 open TH
@@ -90,6 +92,319 @@ theorem expect_body_not_preread (hs : List Header) (fr : Framing)
         simp only [Bool.not_true, Bool.and_false]
         repeat' split
         all_goals simp_all
+
+/-! ### end to end: the interim responses of a whole pipeline -/
+
+open TH.Props.C09 (SentBody CMsg cmsgBytes wellBodied)
+
+/-- the framing's expectation is what the first `Expect` header says: `true` iff there is one and
+    its value is `100-continue` in any letter case (`expect_recognised`, `no_expect_no_continue`
+    and the remaining case — any other value is refused with 417 — in one statement) -/
+theorem framing_expectation (hs : List Header) (fr : Framing) (hf : framingOf hs = .ok fr) :
+    fr.expectContinue =
+      (match findHeader hs b!"Expect" with
+       | some e => eqIgnoreCase e.value b!"100-continue"
+       | none => false) := by
+  cases hE : findHeader hs b!"Expect" with
+  | none => exact no_expect_no_continue hs fr hE hf
+  | some e =>
+    show fr.expectContinue = eqIgnoreCase e.value b!"100-continue"
+    cases hV : eqIgnoreCase e.value b!"100-continue" with
+    | true => exact expect_recognised hs e fr hE hV hf
+    | false =>
+      exfalso
+      unfold framingOf at hf
+      simp only [hE, hV] at hf
+      split at hf
+      · cases hf
+      · simp at hf
+
+/-- the request says `Expect: 100-continue` (first `Expect` header, value in any letter case) -/
+def expects (m : CMsg) : Bool :=
+  match findHeader m.head.headers b!"Expect" with
+  | some e => eqIgnoreCase e.value b!"100-continue"
+  | none => false
+
+/-- generalises `C09.wellBodied`: the request may carry `Expect: 100-continue` — the framing's
+    expectation component is `expects m`.  A Content-Length body of an expecting request is always
+    streamed (`.limited`, whatever its length: `expect_body_not_preread`), so the `.buffered`
+    alternative is there for requests without the expectation only; chunked and absent bodies as
+    before. -/
+def expectBodied (m : CMsg) : Prop :=
+  Spec.wfHead m.head = true ∧ (∀ o ∈ m.ows, Spec.isOwsList o.1 = true ∧ Spec.isOwsList o.2 = true) ∧
+  (match m.body with
+   | .plain body =>
+     framingOf m.head.headers = .ok ⟨.buffered body.length, some body.length, false⟩ ∨
+     framingOf m.head.headers = .ok ⟨.limited body.length, some body.length, expects m⟩ ∨
+     (body = [] ∧ framingOf m.head.headers = .ok ⟨.empty, some 0, expects m⟩)
+   | .chunked cs zero =>
+     framingOf m.head.headers = .ok ⟨.chunked, none, expects m⟩ ∧
+     (∀ c ∈ cs, Spec.wfChunk c = true) ∧
+     (usizeFromHex zero = some 0 ∧ zero.all (fun b => b != 13 && b != 59 && b < 128) = true ∧
+       trim zero = zero)
+   | .absent => framingOf m.head.headers = .ok ⟨.empty, none, expects m⟩) ∧
+  isLastRequest m.head.version m.head.headers = false ∧
+  (⟨Extracted.maxVersion.1, Extracted.maxVersion.2⟩ : Version).lt m.head.version = false
+
+/-- a framing without the expectation: the request does not expect -/
+theorem expects_false_of_framing (m : CMsg) (k : BodyKind) (len : Option Nat)
+    (hf : framingOf m.head.headers = .ok ⟨k, len, false⟩) : expects m = false :=
+  (framing_expectation m.head.headers _ hf).symm
+
+/-- `expectBodied` generalises `wellBodied`. -/
+theorem wellBodied_expectBodied (m : CMsg) (h : wellBodied m) : expectBodied m := by
+  obtain ⟨head, ows, body⟩ := m
+  obtain ⟨h1, h2, h3, h4, h5⟩ := h
+  refine ⟨h1, h2, ?_, h4, h5⟩
+  cases body with
+  | plain B =>
+    rcases h3 with h3 | h3 | ⟨hB, h3⟩
+    · exact Or.inl h3
+    · exact Or.inr (Or.inl (by rw [expects_false_of_framing _ _ _ h3]; exact h3))
+    · exact Or.inr (Or.inr ⟨hB, by rw [expects_false_of_framing _ _ _ h3]; exact h3⟩)
+  | chunked cs zero =>
+    obtain ⟨h3, hcs, hz⟩ := h3
+    exact ⟨by rw [expects_false_of_framing _ _ _ h3]; exact h3, hcs, hz⟩
+  | absent =>
+    show framingOf head.headers = .ok ⟨.empty, none, expects ⟨head, ows, .absent⟩⟩
+    rw [expects_false_of_framing _ _ _ h3]; exact h3
+
+/-- a message without the expectation that is `expectBodied` is `wellBodied` -/
+theorem expectBodied_wellBodied (m : CMsg) (h : expectBodied m) (hno : expects m = false) : wellBodied m := by
+  obtain ⟨head, ows, body⟩ := m
+  obtain ⟨h1, h2, h3, h4, h5⟩ := h
+  refine ⟨h1, h2, ?_, h4, h5⟩
+  cases body <;> (rw [hno] at h3; exact h3)
+
+/-- such a request is framed in the sense of `Lemmas/PipelineStatuses`, with expectation `expects m` -/
+theorem framedMsgE_of_expectBodied (m : CMsg) (fin : EndState) (h : expectBodied m) :
+    FramedMsgE m.head m.ows m.body.wire m.body.payload m.body.declared (expects m) fin := by
+  obtain ⟨head, ows, body⟩ := m
+  obtain ⟨hwf, hows, hbody, _, hver⟩ := h
+  refine ⟨hwf, hows, hver, ?_⟩
+  cases body with
+  | plain B =>
+    rcases hbody with hfr | hfr | ⟨hB, hfr⟩
+    · exact ⟨_, hfr, rfl, (expects_false_of_framing _ _ _ hfr).symm, bodyFramed_buffered head B _ _ fin⟩
+    · exact ⟨_, hfr, rfl, rfl, bodyFramed_limited head B _ _ fin⟩
+    · subst hB
+      exact ⟨_, hfr, rfl, rfl, bodyFramed_empty head _ _ fin⟩
+  | chunked cs zero =>
+    obtain ⟨hfr, hcs, hz⟩ := hbody
+    exact ⟨_, hfr, rfl, rfl, bodyFramed_chunked head cs zero _ _ fin hcs hz⟩
+  | absent =>
+    exact ⟨_, hbody, rfl, rfl, bodyFramed_empty head _ _ fin⟩
+
+/-- The status codes the server must write for the pipeline `msgs` answered by `script` (entry
+    `idx` for the first message): message by message, `100` if the message expects it AND its
+    handler asks for the body (the condition under which `handle` emits the interim response,
+    `(script i).asReaderCalls > 0 && …expectContinue`), then the status of the handler's finish
+    (`Spec.finishStatus`: none for a raw writer). -/
+def expectedStatuses (script : Script) : Nat → List CMsg → List Nat
+  | _, [] => []
+  | idx, m :: ms =>
+    (if (script idx).asReaderCalls > 0 && expects m then [100] else []) ++ Spec.finishStatus (script idx).fin
+      ++ expectedStatuses script (idx + 1) ms
+
+theorem expectedStatuses_eq_pipeStatuses (script : Script) (msgs : List CMsg) :
+    ∀ idx, expectedStatuses script idx msgs = pipeStatuses expects script idx msgs := by
+  induction msgs with
+  | nil => intro idx; rfl
+  | cons m ms ih =>
+    intro idx
+    rw [expectedStatuses, pipeStatuses, ih (idx + 1)]
+    rfl
+
+/-- the number of messages that expect `100 Continue` and whose handler asks for the body -/
+def askedAndExpected (script : Script) (idx : Nat) (msgs : List CMsg) : Nat :=
+  interimCount expects script idx msgs
+
+/-- `100 Continue`, end to end.  A pipeline of any number of requests — with or without
+    `Expect: 100-continue`, each with a Content-Length body of any size, a chunked body or no body
+    — answered by ANY application script: the status codes of everything the server writes are
+    EXACTLY `expectedStatuses`: for each request in order, one `100` iff the request expects it and
+    its handler asks for the body (however often) — never for another request, never twice,
+    always directly before that request's own final status — then the status of the handler's
+    finish (the automatic 500 for a dropped request, nothing for a raw writer).  No hypothesis on
+    the script is needed: a failing `respond` (`respondFail`) still writes its status, and no
+    handler blocks because every body is entirely on the wire.  As in
+    `C09.pipeline_with_any_bodies`, the delivered heads are the heads sent, every handler obtains a
+    prefix of its own request's content, and the server closes after the client's orderly close. -/
+theorem pipeline_statuses (msgs : List CMsg) (script : Script)
+    (hgood : ∀ m ∈ msgs, expectBodied m) :
+    let t := Conn.run ((msgs.map cmsgBytes).flatten) .eof script
+    t.statuses = expectedStatuses script 0 msgs ∧
+      t.delivered.map (fun d => (d.method, d.url, d.version, d.headers, d.bodyLength)) =
+        msgs.map (fun m => (m.head.method, m.head.url, m.head.version, m.head.headers, m.body.declared)) ∧
+      (∀ (i : Nat) (d : Delivered) (m : CMsg), t.delivered[i]? = some d → msgs[i]? = some m →
+        d.bodyRead <+: m.body.payload) ∧
+      t.ending = .closed := by
+  intro t
+  have hlen := generic_pipeline_length_ge CMsg.head CMsg.ows (fun m => m.body.wire) msgs
+  obtain ⟨s', ds, hdel, hmap, _, hpre, hst, hrun⟩ :=
+    framed_pipeline_statuses CMsg.head CMsg.ows (fun m => m.body.wire) (fun m => m.body.payload)
+      (fun m => m.body.declared) expects .eof msgs
+      (fun m hm => ⟨framedMsgE_of_expectBodied m .eof (hgood m hm), (hgood m hm).2.2.2.1⟩) 0 {} script
+  obtain ⟨k, hk⟩ : ∃ k, ((msgs.map cmsgBytes).flatten).length + 1 - msgs.length = k + 1 :=
+    ⟨((msgs.map cmsgBytes).flatten).length - msgs.length, by
+      have : msgs.length ≤ ((msgs.map cmsgBytes).flatten).length := hlen
+      omega⟩
+  have hdel' : s'.delivered = ds := by rw [hdel]; exact List.nil_append _
+  have hst' : s'.statuses = expectedStatuses script 0 msgs := by
+    rw [hst, expectedStatuses_eq_pipeStatuses]; exact List.nil_append _
+  have ht : t = s'.finish .closed := by
+    have := hrun (((msgs.map cmsgBytes).flatten).length + 1) [] (by exact Nat.le_succ_of_le hlen)
+    rw [List.append_nil, hk] at this
+    exact this
+  rw [ht]
+  refine ⟨?_, ?_, ?_, rfl⟩
+  · rw [St.finish_statuses, hst']
+  · rw [St.finish_delivered, hdel', hmap]
+  · intro i d m h1 h2
+    rw [St.finish_delivered, hdel'] at h1
+    exact hpre i d m h1 h2
+
+/-- the hypothesis-free form of `no_expectation_no_interim`: if no message expects, the server
+    writes the handlers' final statuses and nothing else. -/
+theorem no_expectation_only_finals (msgs : List CMsg) (script : Script)
+    (hgood : ∀ m ∈ msgs, expectBodied m) (hno : ∀ m ∈ msgs, expects m = false) :
+    (Conn.run ((msgs.map cmsgBytes).flatten) .eof script).statuses = finalStatuses script 0 msgs.length := by
+  rw [(pipeline_statuses msgs script hgood).1, expectedStatuses_eq_pipeStatuses]
+  exact pipeStatuses_no_expectation expects script msgs hno 0
+
+/-- Requests without the expectation never get an interim response, whatever the handlers do
+    with their bodies.  (`hfin`: the handlers themselves do not choose `100` as the status of a
+    final response — the model lets them; see the counterexample below.) -/
+theorem no_expectation_no_interim (msgs : List CMsg) (script : Script)
+    (hgood : ∀ m ∈ msgs, expectBodied m) (hno : ∀ m ∈ msgs, expects m = false)
+    (hfin : ∀ i, 100 ∉ Spec.finishStatus (script i).fin) :
+    100 ∉ (Conn.run ((msgs.map cmsgBytes).flatten) .eof script).statuses := by
+  rw [no_expectation_only_finals msgs script hgood hno]
+  exact finalStatuses_no_100 script hfin _ _
+
+/-- the hypothesis-free form of `interim_count`: the `100`s on the wire are the interim
+    responses asked for and expected, plus the `100`s handlers chose as final statuses. -/
+theorem interim_count_general (msgs : List CMsg) (script : Script)
+    (hgood : ∀ m ∈ msgs, expectBodied m) :
+    ((Conn.run ((msgs.map cmsgBytes).flatten) .eof script).statuses.filter (· == 100)).length =
+      askedAndExpected script 0 msgs + ((finalStatuses script 0 msgs.length).filter (· == 100)).length := by
+  rw [(pipeline_statuses msgs script hgood).1, expectedStatuses_eq_pipeStatuses]
+  exact pipeStatuses_count_100 expects script msgs 0
+
+/-- The number of interim responses on the wire is the number of requests that expect one and
+    whose handler asks for the body.  (`hfin` as in `no_expectation_no_interim`.) -/
+theorem interim_count (msgs : List CMsg) (script : Script)
+    (hgood : ∀ m ∈ msgs, expectBodied m)
+    (hfin : ∀ i, 100 ∉ Spec.finishStatus (script i).fin) :
+    ((Conn.run ((msgs.map cmsgBytes).flatten) .eof script).statuses.filter (· == 100)).length =
+      askedAndExpected script 0 msgs := by
+  rw [interim_count_general msgs script hgood,
+    filter_eq_100_of_not_mem _ (finalStatuses_no_100 script hfin _ _)]
+  rfl
+
+/-- the statuses other than `100` are, without any hypothesis on the script, those of the
+    handlers' final statuses that are not `100` (used by `C06.pipeline_one_final_response_each`) -/
+theorem non_interim_statuses (msgs : List CMsg) (script : Script)
+    (hgood : ∀ m ∈ msgs, expectBodied m) :
+    (Conn.run ((msgs.map cmsgBytes).flatten) .eof script).statuses.filter (· != 100) =
+      (finalStatuses script 0 msgs.length).filter (· != 100) := by
+  rw [(pipeline_statuses msgs script hgood).1, expectedStatuses_eq_pipeStatuses]
+  exact pipeStatuses_filter_ne_100 expects script msgs 0
+
+/-! non-vacuity: a concrete pipeline of three requests — a POST that expects `100 Continue` and
+    has a Content-Length body, a bare GET, a PUT that expects it (other letter case) and has a
+    chunked body -/
+
+def exPost : CMsg :=
+  ⟨⟨⟨b!"POST"⟩, b!"/a", ⟨1, 1⟩, [⟨b!"Expect", b!"100-continue"⟩, ⟨b!"Content-Length", b!"5"⟩]⟩, [],
+    .plain b!"hello"⟩
+
+def exGet : CMsg := ⟨⟨⟨b!"GET"⟩, b!"/b", ⟨1, 1⟩, []⟩, [], .absent⟩
+
+def exPut : CMsg :=
+  ⟨⟨⟨b!"PUT"⟩, b!"/c", ⟨1, 1⟩, [⟨b!"Expect", b!"100-Continue"⟩, ⟨b!"Transfer-Encoding", b!"chunked"⟩]⟩,
+    [(b!" ", []), (b!" ", [])], .chunked [⟨b!"3", [], b!"abc"⟩] b!"0"⟩
+
+/-- the first and the third expect, the second does not -/
+example : expects exPost = true ∧ expects exGet = false ∧ expects exPut = true := by decide
+
+/-- the hypotheses of `pipeline_statuses` hold of it (the POST's 5-byte body is streamed, not
+    buffered, because of the expectation) -/
+theorem ex_expectBodied : ∀ m ∈ [exPost, exGet, exPut], expectBodied m := by
+  intro m hm
+  simp only [List.mem_cons, List.not_mem_nil, or_false] at hm
+  rcases hm with rfl | rfl | rfl
+  · refine ⟨by decide, by decide, ?_, by decide, by decide⟩
+    show framingOf exPost.head.headers = .ok ⟨.buffered (b!"hello").length, some (b!"hello").length, false⟩ ∨
+      framingOf exPost.head.headers = .ok ⟨.limited (b!"hello").length, some (b!"hello").length, expects exPost⟩ ∨
+      (b!"hello" = [] ∧ framingOf exPost.head.headers = .ok ⟨.empty, some 0, expects exPost⟩)
+    decide
+  · refine ⟨by decide, by decide, ?_, by decide, by decide⟩
+    show framingOf exGet.head.headers = .ok ⟨.empty, none, expects exGet⟩
+    decide
+  · refine ⟨by decide, by decide, ?_, by decide, by decide⟩
+    show framingOf exPut.head.headers = .ok ⟨.chunked, none, expects exPut⟩ ∧
+      (∀ c ∈ [(⟨b!"3", [], b!"abc"⟩ : Spec.SentChunk)], Spec.wfChunk c = true) ∧
+      (usizeFromHex b!"0" = some 0 ∧ (b!"0").all (fun b => b != 13 && b != 59 && b < 128) = true ∧
+        trim b!"0" = b!"0")
+    decide
+
+/-- the bytes on the wire -/
+def exWire : Bytes :=
+  b!"POST /a HTTP/1.1\r\nExpect:100-continue\r\nContent-Length:5\r\n\r\nhelloGET /b HTTP/1.1\r\n\r\nPUT /c HTTP/1.1\r\nExpect: 100-Continue\r\nTransfer-Encoding: chunked\r\n\r\n3\r\nabc\r\n0\r\n\r\n"
+
+theorem ex_wire : ([exPost, exGet, exPut].map cmsgBytes).flatten = exWire := by decide
+
+/-- so the theorem applies to it, with every script: an interim response for the first request iff
+    its handler asks for the body, never one for the second — even if its handler asks —, one for
+    the third iff its handler asks; each directly before that request's final status -/
+example (script : Script) :
+    (Conn.run exWire .eof script).statuses =
+      (if (script 0).asReaderCalls > 0 then [100] else []) ++ Spec.finishStatus (script 0).fin ++
+      (Spec.finishStatus (script 1).fin ++
+      ((if (script 2).asReaderCalls > 0 then [100] else []) ++ Spec.finishStatus (script 2).fin)) := by
+  rw [← ex_wire, (pipeline_statuses [exPost, exGet, exPut] script ex_expectBodied).1]
+  simp only [expectedStatuses, show expects exPost = true from by decide,
+    show expects exGet = false from by decide, show expects exPut = true from by decide,
+    Bool.and_true, Bool.and_false, Bool.false_eq_true, if_false, List.nil_append, List.append_nil,
+    decide_eq_true_eq, List.append_assoc]
+
+def ok200 : Finish := .respond ⟨200, [], none, none, []⟩
+
+/-- a script whose first handler reads its body (5 bytes, 2 at a time) and whose other handlers
+    never ask for theirs -/
+def exReadsFirst : Script := fun i => if i = 0 then ⟨1, 5, 2, ok200, false⟩ else ⟨0, 0, 1, ok200, false⟩
+
+/-- the model run with it: one interim response, for the first request; the third request's
+    chunked body is skipped unread and without an interim response -/
+example :
+    (Conn.run exWire .eof exReadsFirst).statuses = [100, 200, 200, 200] ∧
+      (Conn.run exWire .eof exReadsFirst).delivered.map (fun d => (d.url, d.bodyRead)) =
+        [(b!"/a", b!"hello"), (b!"/b", []), (b!"/c", [])] ∧
+      (Conn.run exWire .eof exReadsFirst).ending = .closed := by
+  set_option maxRecDepth 20000 in decide
+
+/-- with handlers that never ask for a body: no interim response at all -/
+example : (Conn.run exWire .eof (fun _ => ⟨0, 0, 1, ok200, false⟩)).statuses = [200, 200, 200] := by
+  set_option maxRecDepth 20000 in decide
+
+/-- with handlers that all ask (twice) and read: interim responses for the first and the third
+    request, none for the GET that did not expect one; a dropped request gets its 500 after it -/
+example : (Conn.run exWire .eof (fun _ => ⟨2, 9, 4, .drop, false⟩)).statuses = [100, 500, 500, 100, 500] := by
+  set_option maxRecDepth 20000 in decide
+
+/-- and what the theorem says of these scripts -/
+example : expectedStatuses exReadsFirst 0 [exPost, exGet, exPut] = [100, 200, 200, 200] ∧
+    askedAndExpected exReadsFirst 0 [exPost, exGet, exPut] = 1 ∧
+    askedAndExpected (fun _ => ⟨2, 9, 4, .drop, false⟩) 0 [exPost, exGet, exPut] = 2 := by decide
+
+/-- why `no_expectation_no_interim` and `interim_count` need `hfin`: the model (like the library)
+    lets a handler answer with any status code, `100` included — a bare GET, no expectation, a
+    handler that never asks for the body, and yet a `100` among the statuses: the handler's own
+    final response.  (`no_expectation_only_finals` / `interim_count_general` say exactly this.) -/
+example : expects exGet = false ∧
+    (Conn.run (cmsgBytes exGet) .eof (fun _ => ⟨0, 0, 1, .respond ⟨100, [], none, none, []⟩, false⟩)).statuses
+      = [100] := by decide
 
 example : (Conn.run b!"POST / HTTP/1.1\r\nexpect: 100-Continue\r\nContent-Length: 3\r\n\r\nabc" .eof
     (fun _ => ⟨2, 3, 1, .drop, false⟩)).statuses = [100, 500] := by decide
